@@ -415,7 +415,10 @@ def make_type_nt(schema, name, **kw):
 
     if REPLAY:
         return make_type(schema, name, **kw)
-    from crosshair.tracers import NoTracing  # type: ignore
+    try:
+        from crosshair.tracers import NoTracing  # type: ignore
+    except ImportError:      # plain interpreter (metadata import by the runner)
+        return make_type(schema, name, **kw)
 
     with NoTracing():
         return make_type(schema, name, **kw)
